@@ -26,6 +26,7 @@ import (
 	"github.com/go-openapi/analysis/internal/flatten/schutils"
 	"github.com/go-openapi/analysis/internal/flatten/sortref"
 	"github.com/go-openapi/analysis/internal/verifhook"
+	"github.com/go-openapi/jsonpointer"
 	"github.com/go-openapi/spec"
 )
 
@@ -624,7 +625,7 @@ func stripOAIGenForRef(opts *FlattenOpts, k string, r *newRef) (bool, error) {
 
 	// remove OAIGen definition
 	debugLog("removing definition %s", path.Base(r.path))
-	delete(opts.Swagger().Definitions, path.Base(r.path))
+	delete(opts.Swagger().Definitions, jsonpointer.Unescape(path.Base(r.path)))
 
 	// propagate changes in ref index for keys which have this one as a parent
 	for kk, value := range opts.flattenContext.newRefs {
